@@ -920,6 +920,28 @@ def flow_network_details(ctx, rid):
                     "activity (or `pred not found` panics)" % shape.show(ke)[:120], loc=gm[0].line())
         else:
             ctx.undecided(o, "key provenance not recognised")
+    # ... and the tour is TAKEN from the list of tours that end at the tail (each unit of flow continues its own tour)
+    o = ctx.ob("%s.decoding-takes-the-tour-it-continues" % rid, "T12", SFVT,
+               "a unit of flow removes the tour it continues from the list of tours ending at the arc's tail (pop), so the next unit continues another one")
+    lists = [c for c in fd.body.calls() if (c.callee or "").split("::")[-1] in ("get", "get_mut") and "HashMap" in (c.callee or "")
+             and any("Vec<usize>" in t for t in c.targs)]
+    taken, peeked = [], []
+    for c in fd.body.calls():
+        nm = (c.callee or c.decl or "").split("::")[-1]
+        if nm not in ("pop", "remove", "swap_remove", "last", "first", "index", "get", "last_mut", "first_mut") or not c.args or c in lists:
+            continue
+        chi = direct_chain(fd, c.args[0], want_instrs=True)
+        if not any(x in lists for x in chi):
+            continue
+        (taken if nm in ("pop", "remove", "swap_remove") else peeked).append(c)
+    if taken:
+        ctx.ok(o, "%s at %s" % ((taken[0].callee or "").split("::")[-1], taken[0].line()))
+    elif peeked:
+        ctx.bad(o, "the tour to continue is only looked at (%s at %s), not taken out of the list: all units of flow that leave an activity are "
+                "appended to the same tour, the other tours that ended there are never continued" % (
+                    (peeked[0].callee or peeked[0].decl or "").split("::")[-1], peeked[0].line()), loc=peeked[0].line())
+    else:
+        ctx.undecided(o, "how the continued tour is obtained is not recognised")
     # the arc of an activity runs from the node stored as component 0 of its pair to the one stored as component 1
     for role in ("trip", "maintenance"):
         es = [e for e in edges if e.role == role]
@@ -1128,6 +1150,44 @@ def cluster_loops(ctx, rid):
             ctx.ok(o, "%d append(s), all through push_vehicle_to_end_of_cluster" % len(via))
         else:
             ctx.undecided(o, "no append to a cluster found")
+
+
+UNIT_FNS = {"in_sec": "seconds", "in_min": "minutes", "in_meter": "metres", "in_km": "kilometres"}
+
+
+def unit_agreement(ctx, rid, prefixes=("solution::", "solver::", "model::")):
+    """`x.in_sec().unwrap_or(y)`: the fallback y is in the unit of x (a quantity converted with in_min / in_km where the value it
+    replaces was converted with in_sec / in_meter is off by a factor of 60 / 1000 exactly when the fallback is taken)"""
+    o = ctx.ob("%s.fallbacks-in-the-unit-of-the-value" % rid, "T12", "workspace",
+               "where an Option produced by in_sec()/in_min()/in_meter()/in_km() falls back to another converted quantity, both use the same unit")
+    seen, bad = 0, []
+    for k in sorted(ctx.prog.bodies):
+        b = ctx.prog.bodies[k]
+        if not k.lstrip("<").startswith(prefixes) or getattr(b, "test_unit", False):
+            continue
+        f = None
+        for c in b.calls():
+            nm = (c.callee or c.decl or "")
+            if not nm.endswith(("Option::unwrap_or", "Option::map_or", "Result::unwrap_or", "Result::map_or")) or len(c.args) < 2:
+                continue
+            f = f or ctx.fd(k)
+            if f is None:
+                break
+            u1 = [x.split("::")[-1] for x in direct_chain(f, c.args[0]) if x.split("::")[-1] in UNIT_FNS]
+            u2 = [x.split("::")[-1] for x in direct_chain(f, c.args[1]) if x.split("::")[-1] in UNIT_FNS]
+            if not u1 or not u2:
+                continue
+            seen += 1
+            if u1[0] != u2[0]:
+                bad.append((c, u1[0], u2[0]))
+    if bad:
+        c, a, b_ = bad[0]
+        ctx.bad(o, "at %s a value in %s falls back to one in %s: the figure computed here is off by the conversion factor whenever the fallback "
+                "is taken, and no longer agrees with its twin computation" % (c.line(), UNIT_FNS[a], UNIT_FNS[b_]), loc=c.line())
+    elif seen:
+        ctx.ok(o, "%d fallback(s), units agree" % seen)
+    else:
+        ctx.undecided(o, "no converted fallback found")
 
 
 def cluster_link(ctx, rid):
